@@ -172,6 +172,15 @@ class Prop:
         self.order.append(name)
         return c
 
+    def client(self, name, params, requires=(), ensures=(), body='pass'):
+        """A ghost client program verified against the contracts of the functions it calls (two-call lemmas such as
+        inverse / order-independence properties).  Not usable as a lemma instance: its body has effects."""
+        c = Contract('client::' + name, params=params, requires=requires, ensures=ensures, body=body, kind='client',
+                     name=name, skip_frame=True, allocates=True)
+        self.contracts[name] = c
+        self.order.append(name)
+        return c
+
     def assume(self, text):
         self.assumptions.append(text)
 
